@@ -108,4 +108,28 @@ PROPS = {
         ],
         "expected_probes": ["SrvError", "Rst", "requests_retried"],
     },
+    "C13": {
+        "engine": "dsim",
+        "parts": ["C13"],
+        "part_engines": {"C13": "dsim"},
+        "level": "exploration",
+        "technique": "deterministic simulation with fault injection (mock nodes delay and answer each attempt per seeded script on virtual time; ties between the speculative timer and completions)",
+        "rule": "each run = 2..6 unsharded nodes, SimpleSpeculativeExecutionPolicy(max 0..4, interval 50/100/200 ms), retry policy Fallthrough (2/3) or Default, 1..8 sequential uniquely marked requests, idempotent (3/4) or not; for every attempt reaching a node the tape picks a completion delay on the grid 0, d/2, d, ..., 7d/2 and an outcome: success, definitive error (Invalid/Syntax/Unauthorized/AlreadyExists), ignorable error (Overloaded/Unavailable/IsBootstrapping), connection reset. Non-trivial = at least one speculative execution reached a node. Distinct = distinct (poll-sequence hash, event-log hash).",
+        "assumptions": COMMON_ASSUMPTIONS + [
+            "oracles from the mock's per-attempt history: (a) a non-idempotent request never has unanswered attempts on two nodes at once (any retry policy); with Fallthrough (one attempt per execution): (b) executions <= 1 + max (1 if not idempotent), the k-th reaches a node no earlier than k x interval; (c) executions go to distinct nodes; (d) the call returns a success/definitive outcome that is the earliest one (ties within 4 ms: any of the tied), no later than 6-10 ms after it was sent and not before; (e) without any real answer it fails with an ignorable error, not before every started execution finished; (f) it returns within 120 virtual s",
+            "exact return instants of case (e) and exact tie handling are decided by the direct driver part (C13d), not end-to-end",
+        ],
+        "expected_probes": ["speculative_executions_seen", "Rst", "SrvError"],
+    },
+    "C07": {
+        "engine": "dsim",
+        "level": "exploration",
+        "technique": "deterministic simulation with fault injection (server-side page scripts: seeded page splits, paging states and per-page faults; consumer behaviours)",
+        "rule": "each run = 1..5 unsharded nodes, 1..5 paged queries (query_iter unprepared / execute_iter prepared, idempotent, Default retry policy 3/4 or Fallthrough) over result sets of 0..200 uniquely numbered rows which the mock splits by a seeded page-size sequence (empty pages anywhere, whole-rest pages, trailing empty pages, <= 40 pages) with random paging-state byte strings; per page request the tape may inject a retryable error (Overloaded/IsBootstrapping/ServerError), a non-retryable error (Invalid/Syntax), a connection reset instead of the answer, or a delay of seconds; consumers: eager, slow (sleeps between rows), early drop after k rows; system tables are served to the control-connection pager in pages of 1..3 rows. Non-trivial = at least one query needed more than one page request. Distinct = distinct (poll-sequence hash, event-log hash).",
+        "assumptions": COMMON_ASSUMPTIONS + [
+            "oracles: (a) rows seen are always a prefix of the server's rows in order; on normal end they are all rows and the last page was delivered; (b) from the server's history: first request carries no paging state, each further one asks for the same page only after a failed attempt at it, or for the next page only after the current one was delivered; a state the server never issued or a request beyond the last page is a violation; (c) when the stream fails, exactly the rows of the pages before the failed page were seen; (d) after an early drop at most 2 further distinct pages are requested; control-connection pager: published topology has every node once",
+            "no speculative execution in these runs",
+        ],
+        "expected_probes": ["page_requests", "page_faults", "Rst"],
+    },
 }
